@@ -1,5 +1,5 @@
 ---- MODULE MC_q_nx ----
 EXTENDS MCOFWire
-TheCases == NXUniform(TopKindsNX) \cup NXDeviations(TopKindsNX) \cup NXShapes({0, 1, 2, 3, 4, 5})
-TheAround == AroundBoth
+TheCases == NXDeviations(TopKindsNX) \cup NXShapes({0, 1, 2, 3, 4, 5})
+TheAround == AroundOne
 ====
